@@ -245,6 +245,14 @@ def tryUni (ops : List MOpQ) (eps : Rat) (ctype : Nat) (stdT : UTrans) (h0 : Opt
           else
             (tryType4 ops eps stdT dbM dbOps gens).map fun r => r.map fun T => ⟨u, ctype, T⟩
 
+/-- The normalizer of the tabulated reference group of Hall number `h0`, computed at most once per identification
+(the code recomputes it for every UNI number of the range: "TODO: precompute the normalizer"). -/
+def sharedNormalizer (h0 : Option Nat) (eps : Rat) : Thunk (Option (List UTrans)) :=
+  Thunk.mk fun _ =>
+    match h0.bind dbRef? with
+    | none => some []
+    | some (dbOps, gens) => normalizerAll dbOps gens eps
+
 /-- `MagneticSpaceGroup::new` after `SpaceGroup::new(&ref_spg, Setting::Standard, epsilon)` has produced `sgr`. -/
 def identifyMagFrom (ops : List MOpQ) (eps : Rat) (ctype : Nat) (sgr : Except S5.Err S5.SpaceGroup) :
     Except Err MagSpaceGroup :=
@@ -256,11 +264,7 @@ def identifyMagFrom (ops : List MOpQ) (eps : Rat) (ctype : Nat) (sgr : Except S5
     | some range =>
       let stdT := sgTrans sg
       let h0 := range.head?.bind refHall?
-      let norm0 : Thunk (Option (List UTrans)) := Thunk.mk fun _ =>
-        match h0.bind dbRef? with
-        | none => some []
-        | some (dbOps, gens) => normalizerAll dbOps gens eps
-      match range.findSome? (tryUni ops eps ctype stdT h0 norm0) with
+      match range.findSome? (tryUni ops eps ctype stdT h0 (sharedNormalizer h0 eps)) with
       | some r => r
       | none => .error .magType
 
